@@ -83,6 +83,9 @@ static int apply(int ev, int idx) {
 			return 1;
 		}
 		cm_std(&M); silent = ev == E_S_SILENT; lost_pings = 0;
+		/* seven trains: their zero-speed commands plus soft-stop and track-off need more than the 48-byte response budget of the
+		 * command station, so the shutdown dialogue only completes if its answers are still credited while it runs */
+		while (M.nt < 7) { cm_train_t *t = &M.t[M.nt]; memset(t, 0, sizeof *t); snprintf(t->id, sizeof t->id, "xtrain%d", M.nt); t->addrl = (uint8_t) (0x40 + M.nt); t->addrh = 0x00; t->steps = 28; M.nt++; }
 		cm_install(&M); SB.on_msg = bus_hook; SB.pkt_capacity = 100;
 		if (ev == E_S_BADCFG) env_set_cfg(M.board_txt, BADTRACK, M.train_txt);
 		if (sess_open) sess_open = 0;
